@@ -76,6 +76,21 @@ pub fn bases() -> Vec<Base> {
         }
     }
     out.extend(real_bases());
+    // honest records with one long part followed by very many short ones
+    for ty in [Ty::PolylineZ, Ty::Polygon, Ty::Multipatch] {
+        let pts = |start: usize, n: usize| -> Vec<P4> { (0..n).map(|i| { let k = (start + i) as f64; [k * 0.5, 3.0 - k * 0.25, 100.0 + k, 1000.0 + k * 0.125] }).collect() };
+        let mut parts = vec![MPart { kind: if ty == Ty::Multipatch { 2 } else { 0 }, pts: pts(0, 2000) }];
+        for i in 0..1500 {
+            parts.push(MPart { kind: if ty == Ty::Multipatch { (i % 6) as u8 } else { 0 }, pts: pts(2000 + 2 * i, 2) });
+        }
+        let shape = MShape { ty, parts };
+        let bbox = codec::true_bbox(&shape);
+        let f = MFile { ty, header_box: [0.0; 8], records: vec![MRecord { number: 1, body: MBody::Shape { shape, bbox, with_m: true } }], trailing: vec![] };
+        let enc = codec::encode(&f);
+        let (shx, shx_fields) = codec::encode_shx(&f, &enc, &[0]);
+        // (the first 40 fields: headers, counts and the first part offsets; 1501 offsets x 18 values would dominate the run)
+        out.push(Base { big: true, ty, shp: enc.bytes, shx, shp_fields: enc.fields.into_iter().take(40).collect(), shx_fields });
+    }
     // large valid files: one long part per record, sizes beyond 8 Ki and 64 Ki points
     for ty in [Ty::MultipointZ, Ty::PolylineZ, Ty::PolygonM, Ty::Multipatch, Ty::Polyline] {
         for n in if std::env::var("VCHECK_E3_HUGE").is_ok() { vec![8193usize, 65537] } else { vec![8193usize] } {
@@ -739,6 +754,19 @@ pub fn drive(prop: Prop, shp: &[u8], shx: &[u8], hdr_ty: Ty) -> CaseResult {
             if let Some(mut it) = m.call("iter_shapes()+shx", || r.iter_shapes()) {
                 m.call("seek+next", || it.next().map(|x| x.is_ok()));
             }
+        }
+    }
+    // 4b. gathering an iteration through the size-hint driven std paths
+    if let Some(Ok(mut r)) = m.call("new", || ShapeReader::new(Dev::quiet(shp.to_vec()))) {
+        if plain_ends.0 {
+            let n = m.call("iter_shapes().collect::<Vec<_>>", || r.iter_shapes().collect::<Vec<_>>().len());
+            m.out.u64(n.unwrap_or(0) as u64);
+        }
+    }
+    if let Some(Ok(mut r)) = m.call("with_shx", || ShapeReader::with_shx(Dev::quiet(shp.to_vec()), Dev::quiet(shx.to_vec()))) {
+        if plain_ends.1 {
+            let n = m.call("iter_shapes()+shx.collect::<Vec<_>>", || r.iter_shapes().collect::<Vec<_>>().len());
+            m.out.u64(n.unwrap_or(0) as u64);
         }
     }
     // 5. the iterators driven through the std adaptors an iterator type may override
